@@ -485,14 +485,33 @@ func mkV(m, lo, hi *Term) *Term {
 	if eqTerm(lo, hi) {
 		return mkI(0)
 	}
+	if lo.isInt() && hi.isInt() && lo.Val.IsInt64() && hi.Val.IsInt64() && hi.Val.Int64()-lo.Val.Int64() <= 256 && (m.Op == "store" || m.Op == "K0") {
+		// concrete array (replay evaluation): compute the value
+		acc := new(big.Int)
+		ok := true
+		for k := hi.Val.Int64() - 1; k >= lo.Val.Int64(); k-- {
+			w := mkSelect(m, mkI(k))
+			if !w.isInt() {
+				ok = false
+				break
+			}
+			acc.Mul(acc, specB10_19)
+			acc.Add(acc, w.Val)
+		}
+		if ok {
+			return mkInt(acc)
+		}
+	}
 	if m.Op == "ite" {
 		return mkIte(m.Args[0], mkV(m.Args[1], lo, hi), mkV(m.Args[2], lo, hi))
 	}
 	return app("V", SInt, m, lo, hi)
 }
 
+var specB10_19, _ = new(big.Int).SetString("10000000000000000000", 10)
+
 func mkP(k *Term) *Term {
-	if k.isInt() && k.Val.Sign() >= 0 && k.Val.Cmp(big.NewInt(4)) <= 0 {
+	if k.isInt() && k.Val.Sign() >= 0 && k.Val.Cmp(big.NewInt(64)) <= 0 {
 		b, _ := new(big.Int).SetString("10000000000000000000", 10)
 		return mkInt(new(big.Int).Exp(b, k.Val, nil))
 	}
